@@ -53,7 +53,7 @@ func run[K comparable](r *engine.Rec, c *cfg[K]) {
 	name := c.name
 	seqLen := 2
 	if r.Tier == "thorough" {
-		seqLen = 3
+		seqLen = 4
 	}
 	seqs := keySeqs(len(c.keys), seqLen)
 	M := func() col.MapClassLike[K, int] { return col.Map[K, int](common.N()) }
